@@ -107,7 +107,7 @@ Section Renaming.
   Lemma compress_from_rename d line : forall ps prev,
     compress_from (map f d) (map f line) prev ps = map f (compress_from d line prev ps).
   Proof.
-    induction ps as [|idx ps IH]; intros prev; cbn [compress_from]; rewrite !map_length; unfold byte, bytes in *.
+    induction ps as [|idx ps IH]; intros prev; cbn [compress_from]; rewrite !map_length.
     - destruct (Nat.ltb prev (length line)); [apply skipn_map | reflexivity].
     - rewrite slice_rename, IH, map_app. f_equal.
       destruct (Nat.eqb idx 0); [reflexivity|].
